@@ -62,6 +62,10 @@ def is_strlike_ty(t):
 def val_eq(eng, st, a, b):
     a = eng.deref(st, a); b = eng.deref(st, b)
     if a is b: return BoolVal(True)
+    h2 = getattr(eng, 'eq_hook2', None)
+    if h2 is not None:
+        r = h2(a, b)
+        if r is not None: return r
     if z3.is_expr(a) and z3.is_expr(b): return a == b
     if isinstance(a, Atom) or isinstance(b, Atom):
         a = to_atom(eng, a); b = to_atom(eng, b); return a.t == b.t
@@ -834,3 +838,27 @@ def m_id_eq(ctx):
         raise EngineError(f'id_arena::Id value {x!r}')
     ai, aa = parts(a); bi, ba = parts(b)
     return ctx.ret(And(ai == bi, aa == ba))
+
+@model(r'^(?:(?:core::)?char::methods::<impl char>|char)::(is_ascii_control|is_ascii|is_ascii_digit|is_ascii_alphabetic|is_ascii_alphanumeric|is_ascii_lowercase|is_ascii_uppercase|is_ascii_whitespace|is_ascii_punctuation|is_ascii_graphic|is_ascii_hexdigit)$')
+def m_char_ascii_pred(ctx):
+    what = ctx.callee.rsplit('::', 1)[1]
+    c = ctx.term(ctx.deref(ctx.args[0]), 'char'); B = lambda x: BitVecVal(x, 32)
+    rng = lambda a, b: And(UGE(c, B(a)), ULE(c, B(b)))
+    lower = rng(0x61, 0x7a); upper = rng(0x41, 0x5a); digit = rng(0x30, 0x39)
+    r = {'is_ascii_control': Or(ULE(c, B(0x1f)), c == B(0x7f)), 'is_ascii': ULE(c, B(0x7f)), 'is_ascii_digit': digit,
+         'is_ascii_alphabetic': Or(lower, upper), 'is_ascii_alphanumeric': Or(lower, upper, digit), 'is_ascii_lowercase': lower, 'is_ascii_uppercase': upper,
+         'is_ascii_whitespace': Or(c == B(0x20), c == B(0x09), c == B(0x0a), c == B(0x0c), c == B(0x0d)),
+         'is_ascii_punctuation': Or(rng(0x21, 0x2f), rng(0x3a, 0x40), rng(0x5b, 0x60), rng(0x7b, 0x7e)), 'is_ascii_graphic': rng(0x21, 0x7e),
+         'is_ascii_hexdigit': Or(digit, rng(0x41, 0x46), rng(0x61, 0x66))}[what]
+    return ctx.ret(r)
+
+@model(r'^core::slice::<impl \[.*\]>::get::<usize>$|^(?:std::vec::)?Vec::<.*>::get::<usize>$')
+def m_slice_get(ctx):
+    r = ctx.args[0]; v = ctx.deref(r); i = ctx.term(ctx.args[1], 'usize')
+    if isinstance(v, VecV):
+        alts = []
+        for k in range(len(v.items)):
+            alts.append((i == bv64(k), some(Ref(r.base, r.path + (('i', k),)) if isinstance(r, Ref) and isinstance(r.base, int) else v.items[k])))
+        alts.append((UGE(i, bv64(len(v.items))), none()))
+        return ctx.forks(alts)
+    return NotImplemented
